@@ -4,51 +4,51 @@ import json, subprocess, sys
 
 CHECKS = {
  "C02": dict(engine="E1-simworld", category="model_checking", design="§3 C02",
-   text="One real searcher among scripted ideal responders: L1 every subset (size 1..5, thorough 1..6) of a 3-bit (4-bit) id-prefix universe x searcher id x info-hash class at the default schedule; L2 every topology x 3 (searcher, info-hash) pairs x every single (thorough double) latency deviation over {1,20,240,480} ms on the search's datagrams; L3 every topology of size <= 3 x contact choice x read-only x port/announce x peer sets x family; structured networks of 30/200(/1000) nodes (uniform, clustered at target, clustered at searcher); a stale-bucket layer (the target's bucket holds 8 questionable entries while nearer buckets are fresh; the search is issued every 0.5 s / 0.1 s across that window). Oracle: announce_peer exactly to the 8 closest by XOR (all if fewer) with that node's token, hash, own id, port/implied_port; stream == multiset of values of all delivered answers.",
+   text="One real searcher among scripted ideal responders: L1 every subset (size 1..5, thorough 1..6) of a 3-bit (4-bit) id-prefix universe x searcher id x info-hash class at the default schedule; L2 every topology x 3 (searcher, info-hash) pairs x every single (thorough double) latency deviation over {1,20,240,480} ms on the search's datagrams; L3 every topology of size <= 3 x contact choice x read-only x port/announce x peer sets x family; structured networks of 30/200(/1000) nodes (uniform, clustered at target, clustered at searcher); a stale-bucket layer (the target's bucket holds 8 questionable entries while nearer buckets are fresh; the search is issued every 0.5 s / 0.1 s across that window). Oracle: announce_peer exactly to the 8 closest by XOR (all if fewer) with that node's token, hash, own id, port/implied_port; stream == multiset of values of all delivered answers. Responder answers padded to exactly 1500 bytes (the receive buffer size) must be taken in like any other.",
    note="Responders answer within 480 ms one-way (premise: within one second). Distance ties (equal ids) make the 8-closest set ambiguous and either choice is accepted.",
    technique="layered exhaustive enumeration of topologies/configurations + deviation-bounded schedule exploration of the real node"),
  "C03": dict(engine="E1-simworld", category="fault_enumeration", design="§3 C03",
-   text="One real searcher, 3..5 responders, 1-2 concurrent searches; for every datagram to/from the searcher a fate from {20 ms, 990 ms, 1.6 s, 3.1 s, drop, duplicate} and an adversary injection from a 27-entry menu (9 transaction-id classes x 3 forged bodies, computed from the wire log at that instant); all choice vectors with <= 1 (thorough 2) deviations. Oracle from the wire alone: yielded addresses only from responses whose tid belongs to a still outstanding get_peers of that search; announce_peer only to (id, address) that gave a token, with its latest token, <= 8, none without announce.",
+   text="One real searcher, 3..5 responders, 1-2 concurrent searches; for every datagram to/from the searcher a fate from {20 ms, 990 ms, 1.6 s, 3.1 s, drop, duplicate} and an adversary injection from a 27-entry menu (9 transaction-id classes x 3 forged bodies, computed from the wire log at that instant); all choice vectors with <= 1 (thorough 2) deviations. Oracle from the wire alone: yielded addresses only from responses whose tid belongs to a still outstanding get_peers of that search; announce_peer only to (id, address) that gave a token, with its latest token, <= 8, none without announce. A configuration with 11 token-giving responders of which some cannot be sent to (at most 8 announces, only to the closest) and duplicate ids with rotating tokens.",
    note="Responses delivered 1490..1510 ms after their query are in a free band (1 ms grid vs. timer order).",
    technique="fault enumeration: deviation-bounded exploration of network fates and adversary injections against the real node"),
  "C04": dict(engine="E1-simworld", category="model_checking", design="§3 C04",
-   text="One real node with 0..4 (6) known peers that answer / stay silent / answer errors to get_peers (every behaviour vector for n<=3), chains of 1..6 ever closer nodes, send_to failing or pending once on the k-th send for every k, every choice vector with <= 2 deviations over {1,740,760,990,1600 ms, drop}; timing oracle in virtual ms for termination bound, 3 s silent case, no close with a young unanswered query, no timely answer missed, immediate close with nobody to ask.",
+   text="One real node with 0..4 (6) known peers that answer / stay silent / answer errors to get_peers (every behaviour vector for n<=3), chains of 1..6 ever closer nodes, send_to failing or pending once on the k-th send for every k, every choice vector with <= 2 deviations over {1,740,760,990,1600 ms, drop}; timing oracle in virtual ms for termination bound, 3 s silent case, no close with a young unanswered query, no timely answer missed, immediate close with nobody to ask. Chains through contacts that are never admitted to the table, 5/6/8 answering peers (end-game), router-only nodes with API calls at 7 offsets during the search.",
    note="Tolerance +-10 ms for the 1 ms delivery grid. Searches are issued after the first bootstrap attempt (C16 governs earlier ones).",
    technique="stateless deviation-bounded exploration of the real node with a virtual-time oracle"),
  "C11": dict(engine="E1-simworld", category="model_checking", design="§3 C11",
-   text="One real node for 1 h (thorough 4 h) of virtual time with 1..3 (5, 6..8) contacts: every partition into always-answering / silent from t in {0,1,14,16,60 min}, builder contacts or hearsay-only, single-contact and well-connected regimes, with/without periodic searches, others stop naming a silent contact after 0/5/10 min, latencies {1,20,200}; load_contacts sampled every 3 s. Oracle: responsive contacts never lost and never questionable > 30 s; silent contacts gone after max(last answer + 20 min, last mention + 5 min).",
+   text="One real node for 1 h (thorough 4 h) of virtual time with 1..3 (5, 6..8) contacts: every partition into always-answering / silent from t in {0,1,14,16,60 min}, builder contacts or hearsay-only, single-contact and well-connected regimes, with/without periodic searches, others stop naming a silent contact after 0/5/10 min, latencies {1,20,200}; load_contacts sampled every 3 s. Oracle: responsive contacts never lost and never questionable > 30 s; silent contacts gone after max(last answer + 20 min, last mention + 5 min). Leaf contacts (answer every query with empty node lists), known by hearsay or as builder contacts, next to a serving node; per-contact latencies.",
    note="One deterministic execution per configuration (loss-free premise). 'Always answers' = answers within the asker's shortest timeout.",
    technique="exhaustive sweep of small configurations of the real node over hours of virtual time"),
  "C12": dict(engine="E1-simworld", category="fault_enumeration", design="§3 C12",
-   text="Differential fault enumeration: for every wire event of a base run (bootstrap, idle, search) and each of 16 injections (4 unsolicited query kinds from fresh (id,address); responses with 2/7/9/20-byte ids or never-used action prefixes, from a fresh address and from a known contact) the run is repeated with that injection (thorough: also pairs) and every contacts/state sample (500 ms), three 161-probe table dumps and the search's items are compared with the run without it; hostile node lists in accepted answers (own id, router, duplicates, 50 names): own address/router never listed, named-only nodes never good.",
+   text="Differential fault enumeration: for every wire event of a base run (bootstrap, idle, search) and each of 16 injections (4 unsolicited query kinds from fresh (id,address); responses with 2/7/9/20-byte ids or never-used action prefixes, from a fresh address and from a known contact) the run is repeated with that injection (thorough: also pairs) and every contacts/state sample (500 ms), three 161-probe table dumps and the search's items are compared with the run without it; hostile node lists in accepted answers (own id, router, duplicates, 50 names): own address/router never listed, named-only nodes never good. Injection menu of 25 entries incl. ids derived from the node's outstanding ids (+1/+12 bytes, cut to 7, top bit/byte flipped), a party that only queries (get_peers then announce_peer with the handed token), a ping claiming the id of a node known by name only, and a router that is also given as a node.",
    note="Determinism of the engine makes the two runs comparable sample by sample (checked: replay divergence is a machinery error).",
    technique="fault enumeration with a differential oracle on the real node"),
  "C01": dict(engine="E1-simworld", category="model_checking", design="§3 C01",
-   text="Stateless exploration of full meshes of 2..4 (thorough ..9) real MainlineDht nodes on the in-memory network under virtual time: every configuration of the stated product (family, announce port, id placement, every ordered announcer/searcher pair, two announcers) at the default schedule incl. histories of 10 min .. 30 h and re-announce; every per-link latency matrix over {1,20,480} ms for n<=3 (9+729 x pairs); every choice vector with <= 2 (n=2) / 1 deviations over per-datagram latencies {1,480,990} ms from the announcer's first get_peers on. Oracle: the searcher's stream contains the announcer's IP with the configured/source port up to 24 h - 10 s and none of it after 24 h + 5 s.",
+   text="Stateless exploration of full meshes of 2..4 (thorough ..9) real MainlineDht nodes on the in-memory network under virtual time: every configuration of the stated product (family, announce port, id placement, every ordered announcer/searcher pair, two announcers) at the default schedule incl. histories of 10 min .. 30 h and re-announce; every per-link latency matrix over {1,20,480} ms for n<=3 (9+729 x pairs); every choice vector with <= 2 (n=2) / 1 deviations over per-datagram latencies {1,480,990} ms from the announcer's first get_peers on. Oracle: the searcher's stream contains the announcer's IP with the configured/source port up to 24 h - 10 s and none of it after 24 h + 5 s. Announce ports 1, 443, 6881, 65535 and the source port; two announcers of different ages judged per announcer.",
    note="Single-threaded runtime with fixed select! seed; latency alphabet on a 1 ms grid; no loss. Executions in which a get_peers of the announcing/searching lookup is answered after > 1.5 s are the recorded finding C01 lookup-rtt>1.5s.",
    technique="stateless deviation-bounded model checking of the real nodes under a controlled network/scheduler"),
  "C05": dict(engine="E1-simworld", category="model_checking", design="§3 C05",
-   text="One real node in 24 configurations; every symbol of a 306-symbol alphabet alone and every sequence of length 2 (thorough 3) over a 23-symbol reduced alphabet (20 k / 300 k executions); per injected datagram the set of datagrams emitted in the same millisecond is compared with a reference reply model (exactly one reply with echoed tid, own id, right shape; zero for non-queries and read-only nodes); every response/error emitted must answer a query.",
+   text="One real node in 24 configurations; every symbol of a 306-symbol alphabet alone and every sequence of length 2 (thorough 3) over a 23-symbol reduced alphabet (20 k / 300 k executions); per injected datagram the set of datagrams emitted in the same millisecond is compared with a reference reply model (exactly one reply with echoed tid, own id, right shape; zero for non-queries and read-only nodes); every response/error emitted must answer a query. Further layers: stores crowded beyond what fits a datagram (150..500 peers; the cut-down reply must still be sent, for every tid length 0..=32), the announce symbols on a node that idled 5..31 min (thorough 1 s..1 h), a contact echoing the node's own outstanding transaction id in a well-formed query, want lists in every order.",
    note="Well-formed = shapes generated by the scripted clients; background queries of the node to its contacts are ignored.",
    technique="exhaustive enumeration of short input sequences against the real node under virtual time"),
  "C15": dict(engine="E1-simworld", category="model_checking", design="§3 C15",
-   text="One real node per run over ~110 builder configurations (0..12/36 contacts x 7 behaviours x read-only, router/node splits incl. overlap, outages up to 20 min / 2 h, flapping) with 2-5 bootstrapped() callers at chosen instants, waiters every 250 ms across re-bootstrap cycles and during outages that follow a successful bootstrap, unresolvable router strings, a contact naming one address under two ids; API liveness sampled every 10 virtual seconds, plus every single deviation {1,480,2600 ms, drop, duplicate} on the bootstrap datagrams of the first 20 s.",
+   text="One real node per run over ~110 builder configurations (0..12/36 contacts x 7 behaviours x read-only, router/node splits incl. overlap, outages up to 20 min / 2 h, flapping) with 2-5 bootstrapped() callers at chosen instants, waiters every 250 ms across re-bootstrap cycles and during outages that follow a successful bootstrap, unresolvable router strings, a contact naming one address under two ids; API liveness sampled every 10 virtual seconds, plus every single deviation {1,480,2600 ms, drop, duplicate} on the bootstrap datagrams of the first 20 s. Cancelled waiters (receiver dropped before completion) between live ones, twin ids, duplicate fates on answers.",
    note="'about 11 minutes' is asserted as 660 s after max(call, first instant from which a contact answers continuously); with routers the deadline is not asserted (the statement restricts it to plain nodes).",
    technique="stateless exploration of the real node over configurations, outage patterns and single deviations"),
  "C16": dict(engine="E1-simworld", category="model_checking", design="§3 C16",
-   text="Differential: a fresh node joining a mesh of 2..4 real nodes issues 1-3 searches at offsets {0, 1 ms, after first answer, just before/at/after bootstrap completion} x contact sets x latencies {1,480,990}, searches at 7 offsets around the 5 s re-bootstrap, router-only fresh nodes; each run is compared with the identical run in which the searches are issued right after bootstrapped(); plus <= 1 (thorough 2) deviation {1,480,990 ms, drop} on the fresh node's bootstrap datagrams with the same choice prefix in both runs.",
+   text="Differential: a fresh node joining a mesh of 2..4 real nodes issues 1-3 searches at offsets {0, 1 ms, after first answer, just before/at/after bootstrap completion} x contact sets x latencies {1,480,990}, searches at 7 offsets around the 5 s re-bootstrap, router-only fresh nodes; each run is compared with the identical run in which the searches are issued right after bootstrapped(); plus <= 1 (thorough 2) deviation {1,480,990 ms, drop} on the fresh node's bootstrap datagrams with the same choice prefix in both runs. Uplink outages of 2..40 s during the first attempt; if neither the early nor the late search ends although the node reports good contacts, that is a violation.",
    note="Sets of distinct peers are compared (multiplicities depend on how many nodes answered).",
    technique="stateless deviation-bounded exploration with a differential oracle"),
  "C17": dict(engine="E1-simworld", category="model_checking", design="§3 C17",
-   text="Size monitor on every datagram a real node emits: dedicated single-node runs with k peers on one info-hash (k over 32 values quick, every k in 0..500 thorough) x peer family x node family x table, get_peers from both families x want x tid length {0,8,32} (every length 0..=32 on stores that need the cap), other reply kinds with 32-byte tids; a searching node among responders handing out tokens of 0..1440 bytes (announce_peer echoes them); and the same monitor over the scenario sets of C01, C05, C18. Oracle: <= 1500 bytes and decodable by Message::decode.",
-   note="Transaction ids up to 32 bytes as quantified; longer echoed ids are out of the statement's range.",
+   text="Size monitor on every datagram a real node emits: dedicated single-node runs with k peers on one info-hash (k over 32 values quick, every k in 0..500 thorough) x peer family x node family x table, get_peers from both families x want x tid length {0,8,32} (every length 0..=32 on stores that need the cap), other reply kinds with 32-byte tids; a searching node among responders handing out tokens of 0..1440 bytes (announce_peer echoes them); and the same monitor over the scenario sets of C01, C05, C18. Oracle: <= 1500 bytes and decodable by Message::decode. Transaction ids of 1000..1390 bytes on get_peers / find_node (nothing longer than 1500 bytes may leave the node); a get_peers (id <= 32 bytes) that gets no reply datagram at all is reported as well (the statement presupposes the reply).",
+   note="The statement quantifies over transaction ids up to 32 bytes; longer echoed ids are checked for size only (whether they are answered is not asserted).",
    technique="exhaustive parameter sweep of the real node with a universal wire monitor"),
  "C18": dict(engine="E1-simworld", category="model_checking", design="§3 C18",
-   text="One real node with 1..3 responsive contacts and no routers (re-bootstrap every ~5 s), with/without hourly outages, latencies {1,20,200} ms, 10 min (quick) / 1 h, 6 h (thorough) of virtual time; refresh rounds and timer-queue length read from hook probes every virtual second; every 60 s window: rounds <= 11 + bootstrap attempts on the wire, queue <= 4 (<= 40 with search traffic); also with a hearsay node towards which every send fails, and with announcing searches every ~3 s while send_to takes 0/40/300 ms.",
+   text="One real node with 1..3 responsive contacts and no routers (re-bootstrap every ~5 s), with/without hourly outages, latencies {1,20,200} ms, 10 min (quick) / 1 h, 6 h (thorough) of virtual time; refresh rounds and timer-queue length read from hook probes every virtual second; every 60 s window: rounds <= 11 + bootstrap attempts on the wire, queue <= 4 (<= 40 with search traffic); also with a hearsay node towards which every send fails, and with announcing searches every ~3 s while send_to takes 0/40/300 ms. bootstrapped() polled every 100 ms .. 1 s for the whole run.",
    note="Deterministic single execution per configuration (the property quantifies over run lengths and re-bootstrap counts). Completions are bounded by attempts seen on the wire.",
    technique="exhaustive sweep of run lengths/configurations of the real node under virtual time with probe oracles"),
  "C06": dict(engine="E2-space", category="model_checking", design="§3 C06",
-   text="Explicit-state BFS to closure over the real TokenStore (Copy) under a virtual clock: all reachable abstract states (time since rotation x tracked-token age x which secret the token belongs to) for issue/touch/check-in/advance alphabets around the 10/20/30-minute boundaries, v4, v6 and mixed; in every state a copy of the store is probed: a token <= 10 min old must be accepted from its IP, >= 30 min never, other IP never, never-issued never. E1 binding: every sequence of length <= 3 (thorough 4) over 11 client actions / time jumps (get_peers from A/B, announce from A, A' (same IP other port), B with A's token, previous-instance token, 19-byte token, issued token + 1 byte, 9m59s / 10m01s / 30m) against a real serving node: ack vs 203 per the same rules and a refused announce stores nothing.",
+   text="Explicit-state BFS to closure over the real TokenStore (Copy) under a virtual clock: all reachable abstract states (time since rotation x tracked-token age x which secret the token belongs to) for issue/touch/check-in/advance alphabets around the 10/20/30-minute boundaries, v4, v6 and mixed; in every state a copy of the store is probed: a token <= 10 min old must be accepted from its IP, >= 30 min never, other IP never, never-issued never. E1 binding: every sequence of length <= 3 (thorough 4) over 11 client actions / time jumps (get_peers from A/B, announce from A, A' (same IP other port), B with A's token, previous-instance token, 19-byte token, issued token + 1 byte, 9m59s / 10m01s / 30m) against a real serving node: ack vs 203 per the same rules and a refused announce stores nothing. Forged renewals by the same contact (right IP, wrong token) must not renew; refused announces (bogus, foreign-IP, expired token) followed by get_peers.",
    note="Dedup key is the hook snapshot of the implementation (secrets compared by recomputing SHA-1(ip||secret)); ages saturate at the largest constant the code compares with. Secret collisions (2^-32) ignored. ",
    technique="explicit-state model checking of the real object to closure (BFS, hook-snapshot dedup)"),
  "C07": dict(engine="E2-space", category="model_checking", design="§3 C07",
@@ -60,7 +60,7 @@ CHECKS = {
    note="Routers are fixed at table creation (as with IP-literal routers). Pre/post predicate oracle: the victim choice is left open. Depth-bounded from seeds.",
    technique="exhaustive pattern enumeration + bounded explicit-state exploration of the real RoutingTable with a pre/post oracle"),
  "C09": dict(engine="E2-space", category="model_checking", design="§3 C09",
-   text="For every table state reached by the C08-style exploration (17 seeds x 2 local ids, depth 2/3, plus 160-bucket tables) closest_nodes is enumerated for the local id, single-bit flips, every member id, pseudo-random ids and all-ones: every live node exactly once, no bad node, and every node sharing a longer prefix with the target than the local id within the first 8. E1 binding: real nodes whose tables were filled by traffic (3/9/17 contacts, some going silent), at three instants 161 probes dump the table and 40 targets x 4 want values x {find_node, get_peers} are checked for distinctness, liveness, family, count = min(8, N) and closer-node inclusion.",
+   text="For every table state reached by the C08-style exploration (17 seeds x 2 local ids, depth 2/3, plus 160-bucket tables) closest_nodes is enumerated for the local id, single-bit flips, every member id, pseudo-random ids and all-ones: every live node exactly once, no bad node, and every node sharing a longer prefix with the target than the local id within the first 8. E1 binding: real nodes whose tables were filled by traffic (3/9/17 contacts, some going silent), at three instants 161 probes dump the table and 40 targets x 4 want values x {find_node, get_peers} are checked for distinctness, liveness, family, count = min(8, N) and closer-node inclusion. Instants at which every member is questionable (all contacts silent for 15 min), crowded stores whose replies are cut down (node lists must stay complete), and the 161-probe dump is cross-checked against load_contacts.",
    note="Quick tier uses a subset of single-bit flips (all up to bucket count + 1).",
    technique="bounded explicit-state exploration of the real RoutingTable with a complete per-state oracle"),
  "C10": dict(engine="E2-space", category="model_checking", design="§3 C10",
@@ -68,15 +68,15 @@ CHECKS = {
    note="Where the statement leaves a choice (hearsay-only contact that queried) both answers are allowed. A contact lost because another one was offered is an eviction (C08), not a classification error.",
    technique="explicit-state model checking of the real object to closure (BFS, hook-snapshot dedup)"),
  "C13": dict(engine="E3-enum", category="exploration", design="§3 C13",
-   text="Complete product of the stated message-shape dimensions (6.3 k messages quick, 50 k thorough): Message::encode equals an independent canonical bencoder byte for byte, decode(encode(m)) == m, every permutation of the keys of each dictionary level and every unknown-key insertion decodes to the same message (1 M variants quick, 16 M thorough); rejection list for missing arguments, id lengths and node-list residues.",
+   text="Complete product of the stated message-shape dimensions (6.3 k messages quick, 50 k thorough): Message::encode equals an independent canonical bencoder byte for byte, decode(encode(m)) == m, every permutation of the keys of each dictionary level and every unknown-key insertion decodes to the same message (1 M variants quick, 16 M thorough); rejection list for missing arguments, id lengths and node-list residues. Corpus includes duplicate values, non-UTF-8 value bytes, IPv4-mapped / -compatible IPv6 contacts and the top-level v key; decoder panics are captured and reported.",
    note="Trusts harness/src/benc.rs (reference encoder written from BEP3/5/32). Queries carrying a superset of the named method's arguments are not asserted either way (the statement is silent).",
    technique="bounded-exhaustive input enumeration against an independent reference encoder"),
  "C14": dict(engine="E3-enum", category="fault_enumeration", design="§3 C14",
-   text="Decoder sweep in supervised worker processes (1 GiB address space, 2 MiB decoding stack, counting allocator) in the release and the dev build: every token sequence of <= 5 tokens (dev: 4) over a 27-token bencode alphabet incl. length prefixes up to 2^64, every single structure-aware mutation of every valid message shape, nesting of every depth that fits 1500 bytes in 7 framings; oracle: no death, no panic, single allocation <= 1 MiB, total <= 4 MiB. Node sweep inside the workers: every sequence of <= 2 (thorough 3) of 24 representative datagrams from two addresses into a running serving node (contacts duplicating every reply in half of them); afterwards a ping is answered and get_state / load_contacts / local_addr / search complete.",
+   text="Decoder sweep in supervised worker processes (1 GiB address space, 2 MiB decoding stack, counting allocator) in the release and the dev build: every token sequence of <= 5 tokens (dev: 4) over a 27-token bencode alphabet incl. length prefixes up to 2^64, every single structure-aware mutation of every valid message shape, nesting of every depth that fits 1500 bytes in 7 framings; oracle: no death, no panic, single allocation <= 1 MiB, total <= 4 MiB. Node sweep inside the workers: every sequence of <= 2 (thorough 3) of 24 representative datagrams from two addresses into a running serving node (contacts duplicating every reply in half of them); afterwards a ping is answered and get_state / load_contacts / local_addr / search complete. Worker watchdog: 25 s without progress is a hang and is reported with the input; node-sweep inputs with 1380..1400-byte transaction ids, short node lists and twin ids (one address under two ids).",
    note="Inputs are structure-aware families, not all 256^1500 strings. ",
    technique="bounded-exhaustive fault/input enumeration of the real decoder under a process supervisor"),
  "C19": dict(engine="E2-space", category="model_checking", design="§3 C19",
-   text="Exhausts the reachable positions of the real id generators: 3x2048+1 activities from a fresh AIDGenerator and from the last two blocks before the 2^40 wrap have pairwise distinct 5-byte prefixes; full 2^24+4096 cycles of MIDGenerators (2 quick, 8 thorough): 8 bytes, constant prefix, first 2^24 ids pairwise distinct; all block-boundary windows. Wire monitor over the scenario sets of C01, C05, C18: every query has an 8-byte id, no id twice to one address, no reuse within an activity except the shared first bootstrap round, searches and table maintenance never share a prefix.",
+   text="Exhausts the reachable positions of the real id generators: 3x2048+1 activities from a fresh AIDGenerator and from the last two blocks before the 2^40 wrap have pairwise distinct 5-byte prefixes; full 2^24+4096 cycles of MIDGenerators (2 quick, 8 thorough): 8 bytes, constant prefix, first 2^24 ids pairwise distinct; all block-boundary windows. Wire monitor over the scenario sets of C01, C05, C18: every query has an 8-byte id, no id twice to one address, no reuse within an activity except the shared first bootstrap round, searches and table maintenance never share a prefix. The monitor allows a shared id only for the bootstrap's find_node(own id) burst; a node running 2100 searches (more than one block of 2048); blocks at allocation markers 0, 2048, 2^24-2048, 2^24, 2^25, 2^32, 2^40-2048 pairwise disjoint.",
    note="The statement is read as: the first 2^24 ids of an activity are pairwise distinct (windows across the wrap re-shuffle block 0).",
    technique="exhaustive enumeration of generator positions on the real code"),
  "C20": dict(engine="E3-enum", category="exploration", design="§3 C20",
